@@ -8,6 +8,11 @@ load_musicxml, and compared on exactly the attributes listed in the statement (m
 Reference values (notes that MusicXML cannot keep in their voice, sounding notes) come from the spec
 alone (mc/c03_model.py); the written file is also read by the independent reader mc/c03_reader.py.
 
+Construction-order and call-history dimensions: H1/H2 (order in which the voices are added), D3 (the divisions
+table declared in any order and at any moment of the construction: mc/c03_model._build_part_phased, reference table
+mc/c03_model.q_final), C6 (printed words of directions in every letter case; two files handled one after the other in
+one process).
+
 Clauses: export-total / import-total / reexport-total (no exception), roundtrip-<attribute group>
 (load(save(s)) == s on the statement's attributes), file-denotes-sounding-notes (independent reader),
 byte-fixpoint (save(load(file)) == file).
@@ -38,8 +43,15 @@ ASSUMPTIONS = [
     "during their span; every other note keeps its voice",
     "symbolic durations are compared through the public property GenericNote.symbolic_duration (a missing "
     "explicit value and the estimated value are the same thing); alter None == 0; direction staff None == 1 and only "
-    "dynamics are put on staff 2; Direction.raw_text, doc_order, Page/System and end times of signatures/clefs are "
-    "not compared",
+    "dynamics are put on staff 2; doc_order, Page/System and end times of signatures/clefs are not compared; the words of a "
+    "direction are compared as printed = Direction.raw_text if set, else Direction.text (what save_musicxml writes and what "
+    "load_musicxml stores as raw_text), so an object built with text only equals the one read back from its file",
+    "declaration histories of the divisions table (D3): Part.set_quarter_duration(t, q) is read by its docstring (q takes effect "
+    "from t until the time of the next quarter duration, a value set at t before is replaced); a call made where q is already in "
+    "force and no entry exists adds nothing (the method's comment: 'unless it is redundant'), so what it means for a later "
+    "re-declaration of an earlier time is open: histories with a call that does not change the table are not generated; the "
+    "calls use the times of the final table only, so the final table has no entry that repeats the value before it (such an "
+    "entry is written as a second <divisions> element, see the report of wave 6)",
     "grace_type is compared for 'grace' and 'acciaccatura' (slash), grace chains through grace_prev/grace_next ids",
     "tied grace notes (B4): a grace note has no duration, so a tie that stops on one grace note and another tie of the same "
     "pitch that starts on the next grace note (or the main note) of the run meet at one instant; MusicXML pairs ties by "
@@ -88,12 +100,33 @@ def _load_via_path(load_musicxml, data):
 
 
 def eval_case(case):
+    if "seq" in case:
+        # several scores handled one after the other in this process; each one is checked on its own, so anything
+        # that an earlier file leaves behind in the library shows up as a violation on a later one
+        res = CaseResult(states=len(case["seq"]), transitions=0, traces=len(case["seq"]))
+        outs = []
+        nontrivial = True
+        for i, sub in enumerate(case["seq"]):
+            n0 = len(res.violations)
+            _eval_one(sub, res)
+            for v in res.violations[n0:]:
+                v["detail"] = ("score %d of the sequence; " % (i + 1)) + (v.get("detail") or "")
+            outs.append(res.outcome or "")
+            nontrivial = nontrivial and bool(res.nontrivial)
+        res.nontrivial = nontrivial
+        res.outcome = "seq: " + " | ".join(outs)
+        return res
+    res = CaseResult(states=1, transitions=0, traces=1)
+    return _eval_one(case, res)
+
+
+def _eval_one(case, res):
     from partitura.io.exportmusicxml import save_musicxml
     from partitura.io.importmusicxml import load_musicxml
     from mc import c03_proj as P
     from mc import c03_reader as R
 
-    res = CaseResult(states=1, transitions=0, traces=1)
+    nviol0 = len(res.violations)
     spec = G.expand(case)
     score = M.build_score(spec)
     parts = M.iter_parts(spec)
@@ -160,9 +193,11 @@ def eval_case(case):
         res.fail("byte-fixpoint", expected=[x.strip() for x in a[max(0, i - 2):i + 4]], observed=[x.strip() for x in b[max(0, i - 2):i + 4]],
                  where="save_musicxml(load_musicxml(file))", detail="first differing line %d" % (i + 1))
     nmoved = sum(len(v) for v in moved.values())
+    own = res.violations[nviol0:]
     res.outcome = "ok moved=%d bk=%d fw=%d ch=%d" % (min(nmoved, 3), min(data.count(b"<backup>"), 3), min(data.count(b"<forward>"), 3),
-                                                    min(data.count(b"<chord/>"), 2)) if not res.violations else \
-        "viol:" + ",".join(sorted(set(v["clause"] for v in res.violations)))
+                                                    min(data.count(b"<chord/>"), 2)) + \
+        ((" words=%d" % min(data.count(b"<words>"), 3)) if b"<words>" in data else "") if not own else \
+        "viol:" + ",".join(sorted(set(v["clause"] for v in own)))
     return res
 
 
@@ -256,6 +291,15 @@ def spaces(tier, seed):
           "each direction must end where the next of its own family starts, else at the end of the part); ")
     sp.append(Space("C5-constant-direction-sequences", lambda: G.gen_C_cdirs(False), True,
                     c5 + "core with an onset at every grid time; simultaneous directions attached in family order l,t,a and a,t,l"))
+    c6 = ("two 1/4 measures with an onset at every grid time 0..3; direction tokens = {dolce, adagio, legato, cresc., rit.} "
+          "x printed in {lower case, Capitalised, UPPER CASE} (Direction.raw_text, canonical text dolce / adagio / legato / "
+          "crescendo / ritardando); ")
+    sp.append(Space("C6-direction-words-letter-case", G.gen_C_wordcase, True,
+                    c6 + "every token at every grid time; every ordered pair of tokens at grid times t1 < t2 (the same words in the "
+                    "same and in another letter case included); every ordered pair of tokens of different kinds at one grid time"))
+    sp.append(Space("C6-direction-words-two-files", G.gen_C_wordcase_sequences, True,
+                    c6 + "two scores saved, loaded and re-saved one after the other in one process: A = one token at grid time 0, "
+                    "then B = one token at any grid time, every (A, B); every clause on each score separately"))
     if q:
         sp.append(Space("C5-constant-direction-sequences-orders-block", G.stride(lambda: G.gen_C_cdirs(True), 16, seed % 16), True,
                         "block %d of 16 (index stride) of: " % (seed % 16) + c5 + "the other four family orders on that core and all six "
@@ -267,6 +311,31 @@ def spaces(tier, seed):
     sp.append(Space(bname("D1-divisions-change"), blk(G.gen_D_divisions), True,
                     btxt + "divisions change q0->q1 (all ordered pairs from 1..4) in the middle of a 2/4 measure or at the barline of two 1/4 "
                     "measures; all cores of <=2 events not crossing the change"))
+    d3 = ("declaration history of the divisions table = Part(quarter_duration=init) and calls set_quarter_duration(t, q) "
+          "made at a cut of the construction (before any object / after page, system, measures and time signature / after "
+          "all notes), t in the times of the final table, init and q in its values plus one value it does not use; every "
+          "init and every sequence of <=3 calls that each change the table and end in the final table (declared late, "
+          "later change first, a value re-set at the same or an earlier time after a later one was declared); sequences of "
+          "<=2 calls at every non-decreasing assignment of cuts, 3 calls together after the structure / after the notes; ")
+    B3 = 16
+    if q:
+        sp.append(Space("D3-divisions-declaration-order-block", G.stride(G.gen_D_declaration_order, B3, seed % B3), True,
+                        "block %d of %d (index stride) of: " % (seed % B3, B3) + d3 + "divisions q0->q1 in (1,2),(2,1),(2,3),(3,2) "
+                        "after the first quarter of a 2/4 measure or at the barline of two 1/4 measures; all cores of <=2 notes "
+                        "(span with a single symbol inside a divisions segment x voice{1,2}) with a time point at the change; "
+                        "symbolic durations explicit / estimated by the library; 67 histories per core"))
+        sp.append(Space("D3-divisions-declaration-order-3segments-block", G.stride(G.gen_D_declaration_order_3, B, r), True,
+                        btxt + d3 + "three 1/4 measures with divisions (1,2,1),(2,1,2),(1,2,3),(3,2,1) (a call in the middle has "
+                        "an earlier and a later entry); all cores of <=2 notes of voice 1; explicit / estimated symbolic durations"))
+    else:
+        sp.append(Space("D3-divisions-declaration-order", G.gen_D_declaration_order, True,
+                        d3 + "divisions q0->q1 in (1,2),(2,1),(2,3),(3,2) "
+                        "after the first quarter of a 2/4 measure or at the barline of two 1/4 measures; all cores of <=2 notes "
+                        "(span with a single symbol inside a divisions segment x voice{1,2}) with a time point at the change; "
+                        "symbolic durations explicit / estimated by the library; 67 histories per core"))
+        sp.append(Space("D3-divisions-declaration-order-3segments", G.gen_D_declaration_order_3, True,
+                        d3 + "three 1/4 measures with divisions (1,2,1),(2,1,2),(1,2,3),(3,2,1) (a call in the middle has "
+                        "an earlier and a later entry); all cores of <=2 notes of voice 1; explicit / estimated symbolic durations"))
     sp.append(Space(bname("D2-key-time-clef-change"), blk(G.gen_D_attributes), True,
                     btxt + "key/time/clef changes at every grid position of two 2/4 measures, singly and in pairs, three cores"))
     sp.append(Space("E-parts-and-groups", G.gen_E_structure, True, "all forests of <=3 parts with groups nested <=2 deep, two attribute variants"))
@@ -294,10 +363,14 @@ def spaces(tier, seed):
     return sp
 
 
+def _any_score(pred):
+    return lambda case, v: any(pred(c) for c in case.get("seq", [case]))
+
+
 TRIGGERS = {
-    "divisions_change_without_time_point": lambda case, v: G.has_divisions_change_without_point(case),
-    "right_barline_fermata_before_next_measure": lambda case, v: G.has_inner_right_fermata(case),
-    "plain_words_object": lambda case, v: G.has_words_object(case),
+    "divisions_change_without_time_point": _any_score(G.has_divisions_change_without_point),
+    "right_barline_fermata_before_next_measure": _any_score(G.has_inner_right_fermata),
+    "plain_words_object": _any_score(G.has_words_object),
 }
 
 if __name__ == "__main__":
